@@ -36,6 +36,8 @@ func main() {
 		cmdLibReplay(os.Args[2:])
 	case "expr-replay":
 		cmdExprReplay(os.Args[2:])
+	case "reuse-traces":
+		cmdReuseTraces(os.Args[2:])
 	case "pattern-traces":
 		cmdPatternTraces(os.Args[2:])
 	case "probe-alias":
